@@ -63,7 +63,7 @@ def handle (s : Srv) : Ev → Except Err Srv
   | .cancel c t => handleCancel s c t
   | .disconnect c => handleDisconnect s c
   | .result m v => handleResult s m v
-  | .error m msg => routeUp s m (fun c => .errorTo c msg)
+  | .error m msg => handleError s m msg
   | .log m msg => routeUp s m (fun c => .logTo c msg)
 
 theorem step_eq_handle (s : Srv) (e : Ev) : step s e = handle { s with out := [] } e := by
@@ -140,10 +140,10 @@ theorem sim_handle {s : Srv} {a : Abs} (h0 : Inv s) (r0 : R s a) (ho : s.out = [
         | false => rfl
         | true => exact absurd (mi.mp hx) ht
       rw [handleRequest_notMine h0 hc ht] at hs
-      obtain ⟨s'', e2, p⟩ := handleDisconnect_post (h0.emit (.errorTo c 0)) (c := c) (ts := ts) hc
+      obtain ⟨s'', e2, p⟩ := handleDisconnect_post (h0.emit (.errorNow c 0)) (c := c) (ts := ts) hc
       rw [e2] at hs; cases hs
       simp only [absEv, spec_request_notOpen no]
-      have r1 : R (s.emit (.errorTo c 0)) a := r0.congr rfl rfl rfl
+      have r1 : R (s.emit (.errorNow c 0)) a := r0.congr rfl rfl rfl
       refine ⟨r1.disc (h0.emit _) p, ?_⟩
       rw [p.replies]; replies
   | disconnect c =>
@@ -207,17 +207,33 @@ theorem sim_handle {s : Srv} {a : Abs} (h0 : Inv s) (r0 : R s a) (ho : s.out = [
   | error m msg =>
     simp only [handle] at hs
     simp only [absEv]
-    rcases routeUp_eq h0 m (fun c => .errorTo c msg) with
-      ⟨hm, e1⟩ | ⟨t, c, hm, h1, e1⟩
+    rcases handleError_eq h0 m msg with ⟨hb, e1⟩ | ⟨b, t, c, ts, hb, hm, h1, hc, ht, e1⟩
     · rw [e1] at hs; cases hs
-      have hm' : get? s.m2t m = none := hm
-      simp only [hm', spec]; exact ⟨r0, by replies⟩
+      cases hm : get? s.m2t m with
+      | none => simp only [spec]; exact ⟨r0, by replies⟩
+      | some t =>
+        obtain ⟨c, h1⟩ := h0.mt m t hm
+        have rt := r0.task t
+        simp only [spec]
+        cases hst : a.task t with
+        | unknown => rw [hst] at rt; simp only [TaskRel] at rt; rw [h1] at rt; cases rt
+        | running o w =>
+          rw [hst] at rt
+          obtain ⟨m', ts', x1, _, _, x4⟩ := rt
+          rw [h1] at x1; cases x1; rw [hb] at x4; cases x4
+        | done o v0 =>
+          rw [hst] at rt
+          obtain ⟨m', ts', x1, _, _, x4⟩ := rt
+          rw [h1] at x1; cases x1; rw [hb] at x4; cases x4
+        | delivered o => exact ⟨r0, by replies⟩
+        | cancelled o => exact ⟨r0, by replies⟩
     · rw [e1] at hs; cases hs
       have hm' : get? s.m2t m = some t := hm
-      have ow := (r0.task t).owner
-      rw [h1] at ow; simp at ow
-      simp only [hm', spec, ow]
-      exact ⟨r0.congr rfl rfl rfl, by replies⟩
+      have mi := r0.mine_iff h0 t hc
+      simp only [hm', spec]
+      rcases openFor_cases (mi.mpr ht) with ⟨w, hst⟩ | ⟨v0, hst⟩
+      · simp only [hst]; exact ⟨r0.congr rfl rfl rfl, by replies⟩
+      · simp only [hst]; exact ⟨r0.congr rfl rfl rfl, by replies⟩
   | log m msg =>
     simp only [handle] at hs
     simp only [absEv]
